@@ -4,6 +4,7 @@ CONSTANTS
   MaxLen = 5
   WithGrids = TRUE
 VIEW view
-INVARIANTS UniqueHandles ObjInv EmitInv
+INVARIANTS UniqueHandles ObjInv
+ACTION_CONSTRAINT EmitEdge
 PROPERTY Immutable
 CHECK_DEADLOCK FALSE
